@@ -15,6 +15,9 @@ theorem step_frame (h h' : Store) (i : Instr) (n : Nat) (hn : n ≤ h.length)
     · simp only [Except.ok.injEq] at hs; subst hs
       exact ⟨by simp, fun j hj => by rw [List.getElem?_append_left (by omega)]⟩
     · simp at hs
+  | newQM =>
+    simp only [step, Except.ok.injEq] at hs; subst hs
+    exact ⟨by simp, fun j hj => by rw [List.getElem?_append_left (by omega)]⟩
   | fromBqm s =>
     simp only [step] at hs
     split at hs
